@@ -47,6 +47,9 @@ void NameField(const void* addr, const std::string& name);
 void NameRange(const void* addr, std::size_t size, const std::string& name);
 // Inside any named range or allocation, report the atomic at byte offset `off` as "<range>.<alias>".
 void NameOffsetAlias(long off, const std::string& alias);
+// Address of the object of the most recent yaclib_std operation of the calling fiber/thread (also ambient ones);
+// used to calibrate field names: perform one known operation, then NameField(LastOpObject(), "...").
+const void* LastOpObject();
 // Name of the range/field containing addr ("" if unknown).
 std::string NameOf(std::uintptr_t addr);
 
